@@ -111,6 +111,9 @@ inline const std::vector<Op> &ops() {
         { "crypto_core_ed25519_scalar_complement", SL(32), [](size_t) { crypto_core_ed25519_scalar_complement(B().out, B().secret); }, false, "bytes", 0 },
         { "crypto_core_ed25519_scalar_invert", SL(32), [](size_t) { B().sink = crypto_core_ed25519_scalar_invert(B().out, B().secret); }, false, "scalar", 0 },
         { "crypto_core_ed25519_scalar_reduce", SL(64), [](size_t) { crypto_core_ed25519_scalar_reduce(B().out, B().secret); }, false, "bytes", 0 },
+        // the canonical test of a secret scalar: the verdict is public, and the same (canonical) for both secrets of every pair of this kind
+        { "crypto_core_ed25519_scalar_is_canonical", SL(32), [](size_t) { B().sink = crypto_core_ed25519_scalar_is_canonical(B().secret); }, false, "scalar", 0 },
+        { "crypto_core_ristretto255_scalar_is_canonical", SL(32), [](size_t) { B().sink = crypto_core_ristretto255_scalar_is_canonical(B().secret); }, false, "scalar", 0 },
         { "crypto_core_ristretto255_scalar_mul", SL(64), [](size_t) { crypto_core_ristretto255_scalar_mul(B().out, B().secret, B().secret + 32); }, false, "bytes", 0 },
         // ---- secret-key primitives: key (first 32 bytes) and message (following publen bytes) are both secret
         { "crypto_stream_chacha20_xor", SLP(32 + n), [](size_t n) { B().sink = crypto_stream_chacha20_xor(B().out, B().secret + 32, n, B().pub, B().secret); }, false, "bytes", 600 },
@@ -183,6 +186,11 @@ inline const std::vector<Op> &ops() {
         // ---- padding: the secret is the position of the marker inside the final block (buffer of publen = k * 16 bytes, block size 16)
         { "sodium_unpad", SLP(n), [](size_t n) { size_t ul = 0; B().sink = sodium_unpad(&ul, B().secret, n, 16); B().sink = (int) (ul & 0); }, false, "padpos", 320 },
         { "sodium_pad", SLP(n + 16), [](size_t n) { size_t pl = 0; B().sink = sodium_pad(&pl, B().secret, pad_ul(), 16, n + 16); }, false, "padlen", 304 },
+        // block sizes that are not a power of two take the modulo path
+        { "sodium_pad(blocksize 24)", SLP(n + 24), [](size_t n) { size_t pl = 0; B().sink = sodium_pad(&pl, B().secret, pad_ul(), 24, n + 24); }, false, "padlen:24", 304 },
+        { "sodium_pad(blocksize 100)", SLP(n + 100), [](size_t n) { size_t pl = 0; B().sink = sodium_pad(&pl, B().secret, pad_ul(), 100, n + 100); }, false, "padlen:100", 304 },
+        { "sodium_unpad(blocksize 24)", SLP(n), [](size_t n) { size_t ul = 0; B().sink = sodium_unpad(&ul, B().secret, n, 24); B().sink = (int) (ul & 0); }, false, "padpos:24", 320 },
+        { "sodium_unpad(blocksize 100)", SLP(n), [](size_t n) { size_t ul = 0; B().sink = sodium_unpad(&ul, B().secret, n, 100); B().sink = (int) (ul & 0); }, false, "padpos:100", 320 },
     };
     return O;
 }
